@@ -185,6 +185,11 @@ def run_property(prop, tier, seed, rebaseline=False, only_units=None):
                     b['functions'][k] = 'verified'
                 else:
                     b['functions'][k] = 'failed-at-baseline'
+            bad = [k for k, x in b['functions'].items() if x == 'failed-at-baseline']
+            if bad and not os.environ.get('VERIF_FORCE_REBASELINE'):
+                print(f'REFUSED to baseline {u}: these obligations fail on the current tree: {bad} '
+                      '(fix the overlay or the code; VERIF_FORCE_REBASELINE=1 overrides)')
+                continue
             b['assumptions'] = sorted({f'{a["kind"]} @ {a["at"]}' for a in r.get('assumptions', [])})
             json.dump(b, open(baseline_path(u), 'w'), indent=1, sort_keys=True)
             print(f'baseline written for {u}: {sum(1 for x in b["functions"].values() if x == "verified")} verified, '
